@@ -188,6 +188,9 @@ void Search::go()
     }
     iter_search();
 
+    // no iteration completed (stopped or out of time at once): answer with a root move anyway
+    if (_best_move == NO_MOVE && !_root_moves.empty()) _best_move = _root_moves[0];
+
     ASSERT(_best_move != NO_MOVE);
     sync_cout << "bestmove " << _position.uci(_best_move) << sync_endl;
 }
